@@ -1644,6 +1644,16 @@ fn gen_c19(ch: &mut Choices) -> Plan {
     let kind = ch.weighted(&[40, 15, 10, 10, 5, 10, 5, 5]);
     let mut connect = plan.peer.connect.clone();
     connect.keep_alive = *ch.pick(&[60_000u16, 10, 0]);
+    // unusual but legal CONNECT contents; a long user name makes the Remaining Length two bytes long, so
+    // that fragmentation can fall inside the fixed header
+    match ch.choose(6) {
+        0 => {
+            connect.username = Some("u".repeat(*ch.pick(&[150usize, 300])));
+            connect.password = Some(vec![7; 3]);
+        }
+        1 => connect.username = Some("user-without-password".into()),
+        _ => {}
+    }
     plan.peer.connect = connect.clone();
     let raw_connect = |c: &rc::Connect, reserved_flag: bool| -> PeerStep {
         let mut bytes = rc::encode(ver, &Pkt::Connect(c.clone()));
@@ -1813,6 +1823,11 @@ fn gen_c19(ch: &mut Choices) -> Plan {
             }
         }
     }
+    if plan.cfg.max_size != 0 {
+        // the inbound size limit applies to CONNECT as well: keep it small when that limit is probed
+        plan.peer.connect.username = None;
+        plan.peer.connect.password = None;
+    }
     plan.ending = Ending::Settle;
     plan
 }
@@ -1929,6 +1944,27 @@ fn gen_c16(ch: &mut Choices) -> Plan {
         plan.p_immediate = 0;
         plan.p_hold = 500;
         plan.tags.push("motif:violation-behind-busy-handler".into());
+    }
+    if ch.chance(1, 10) {
+        // values at the edge of their range inside otherwise ordinary packets: topic names of (nearly)
+        // 65535 bytes, packet identifier 65535, SUBSCRIBE with many filters, an empty payload
+        let at = ch.choose(plan.peer.script.len() as u32 + 1) as usize;
+        let pkt = match ch.choose(4) {
+            0 | 1 => {
+                let qos = ch.choose(3) as u8;
+                let mut p = mk_publish(ver, ch, 120, qos, if qos > 0 { Some(65_535) } else { None }, 0);
+                p.topic = "x".repeat(*ch.pick(&[65_535usize, 65_534, 65_533, 65_532, 65_531, 32_768]));
+                p.props.clear();
+                Pkt::Publish(p)
+            }
+            2 => Pkt::Subscribe(rc::Subscribe { pid: 65_535, props: Vec::new(), filters: (0..40).map(|k| (format!("many/{k}/#"), (k % 3) as u8)).collect() }),
+            _ => Pkt::Unsubscribe(rc::Unsubscribe { pid: 65_535, props: Vec::new(), filters: (0..40).map(|k| format!("never/subscribed/{k}")).collect() }),
+        };
+        plan.peer.script.insert(at, step(pkt, ver, Pre::Connected));
+        if plan.cut == Cut::Byte || plan.cut == Cut::Boundary {
+            plan.cut = Cut::Random;
+        }
+        plan.tags.push("edge-values".into());
     }
     if before_handshake && role.is_server() {
         // the first packet replaces CONNECT
